@@ -97,6 +97,19 @@ def callFault (records : List RecSpec) (results : List ModDict) : Bool :=
 def Results.hasFault (r : Results) : Bool :=
   conversionFault r.records r.results || r.timings.faulty
 
+/-! ### fault plans: one failing conversion at a chosen position -/
+
+def setFault : ModDict → Nat → ModSpec → ModDict
+  | [], _, _ => []
+  | (k, _) :: rest, 0, f => (k, f) :: rest
+  | kv :: rest, j + 1, f => kv :: setFault rest j f
+
+/-- the results with the `j`-th module entry of record `i` replaced by `f` -/
+def injectAt : List ModDict → Nat → Nat → ModSpec → List ModDict
+  | [], _, _, _ => []
+  | m :: ms, 0, j, f => setFault m j f :: ms
+  | m :: ms, i + 1, j, f => m :: injectAt ms i j f
+
 /-! ### the documented content -/
 
 /-- `"modules": {name: to_json(), …}` of one record, `None` entries left out -/
